@@ -109,7 +109,7 @@ package security
 
 //@ func NASEncrypt
 //@ prop C07 C06 C10
-//@ opaque snow3gspec.S1 snow3gspec.S2 snow3gspec.MULa snow3gspec.DIVa snow3gspec.Init snow3gspec.Step snow3gspec.Out snow3gspec.Iter nasalg.MUL64 nasalg.MULxPOW64 nasalg.EIA1Fold
+//@ opaque snow3gspec.S1 snow3gspec.S2 snow3gspec.MULa snow3gspec.DIVa snow3gspec.Init snow3gspec.Step snow3gspec.Out snow3gspec.Iter nasalg.MUL64 nasalg.MULxPOW64 nasalg.EIA1Fold nasalg.EEA1KeystreamByte nasalg.EEA2KeystreamByte
 //@ maynil payload
 //@ requires len: len(payload) < 1<<28
 //@ requires nonempty: payload == nil || len(payload) >= 1
